@@ -432,12 +432,28 @@ func (v *V) evalSpecBuiltin(e *Env, name string, call *ast.CallExpr) (Val, bool)
 		lo, hi := e.adapt(e.eval(args[1]), tInt), e.adapt(e.eval(args[2]), tInt)
 		if len(args) == 5 && e.proving {
 			// exists(i, lo, hi, P, w): when the clause is being proved (positive position) the
-			// witness w instantiates the quantifier: lo <= w < hi && P[w/i]
-			w := e.adapt(e.eval(args[4]), tInt)
-			ne := e.sub()
-			ne.bound[id.Name] = Val{T: tInt, S: w.S}
-			body := ne.eval(args[3])
-			return boolVal(and(v.ile(lo.S, w.S), v.ilt(w.S, hi.S), body.S)), true
+			// witness w instantiates the quantifier: lo <= w < hi && P[w/i]. A witness that does not
+			// resolve at this return point (e.g. a loop variable, after the loop) is ignored.
+			var w Val
+			okW := func() (ok bool) {
+				defer func() {
+					if r := recover(); r != nil {
+						if _, isBind := r.(bindError); isBind {
+							ok = false
+							return
+						}
+						panic(r)
+					}
+				}()
+				w = e.adapt(e.eval(args[4]), tInt)
+				return true
+			}()
+			if okW {
+				ne := e.sub()
+				ne.bound[id.Name] = Val{T: tInt, S: w.S}
+				body := ne.eval(args[3])
+				return boolVal(and(v.ile(lo.S, w.S), v.ilt(w.S, hi.S), body.S)), true
+			}
 		}
 		ne := e.sub()
 		ne.inQuant++
